@@ -20,7 +20,7 @@
    told to skip in gen_excluded; [unattributed_ok] bounds both lists by the hand-reviewed lists below.
    Outside this tie: reads, and the precision limits listed at the top of harness/cmd/gen/target_conc.go. *)
 From Coq Require Import List Arith Bool String.
-From GmsmVerif Require Import Conc.AccessModel Conc.NestModel Conc.AccessTable Gen.ConcWriteSets.
+From GmsmVerif Require Import Conc.AccessModel Conc.NestModel Conc.AccessTable Conc.LockOrder Gen.ConcWriteSets.
 Import ListNotations.
 Open Scope string_scope.
 
@@ -220,3 +220,43 @@ Definition allowed_excluded : list string := ["(*gmtls.Conn).handleRenegotiation
 
 Definition str_subset (a b : list string) : bool := forallb (fun x => existsb (String.eqb x) b) a.
 Definition unattributed_ok : bool := str_subset gen_unattributed allowed_unattributed && str_subset gen_excluded allowed_excluded.
+
+(* ---- lock order of the source ----
+   gen_lock_order lists (held, taken) for every Lock / RLock / Once.Do reachable from an entry point while another
+   mutex or Once is held (by the function or by its callers).  A sync.Once counts as a lock here: a second caller of
+   Do waits for the first.  src_rank is a rank function for these names: for a mutex of the table it IS the table's
+   rank (gm_rank through lock_of_src), so source and table are ordered by the same function; [src_lock_order_ok]
+   says every pair goes strictly upwards - the held-before relation of the source is acyclic, and no lock is taken
+   while a lock of the same name is held.  (Names are per type and field, not per object: two Configs' mutexes are one
+   name - conservative.) *)
+Definition once_rank (o : nat) : nat :=
+  if Nat.eqb o O_curve then 5        (* taken inside getCAs' and the system roots' initialisers (certificate parsing) *)
+  else 3.                            (* serverInitOnce (takes Config.mutex inside), x509.once, gmtls.once, gmtls.initonce *)
+Definition src_rank (n : string) : option nat :=
+  match lock_of_src 0 n with
+  | Some (LMutex m) => Some (gm_rank m)
+  | Some (LOnce o) => Some (once_rank o)
+  | None => if String.eqb n "gmtls.writerMutex" then Some 4 else None      (* key-log writer: taken last, holds nothing *)
+  end.
+Definition src_lock_order_ok : bool :=
+  forallb (fun p => match src_rank (fst p), src_rank (snd p) with Some a, Some b => Nat.ltb a b | _, _ => false end) gen_lock_order.
+
+(* the same pairs in table terms: every source pair between two mutexes of the table is a nesting of some row, and
+   every nesting of real mutexes (not the virtual ones of atomics) in the rows is found in the source *)
+Definition table_pairs : list (nat * nat) := flat_map (fun o => held_before [] (code o)) all_ops.
+Definition has_pair (p : nat * nat) (l : list (nat * nat)) : bool :=
+  existsb (fun q => Nat.eqb (fst p) (fst q) && Nat.eqb (snd p) (snd q)) l.
+Definition src_pairs : list (nat * nat) :=
+  flat_map (fun p => match lock_of_src 0 (fst p), lock_of_src 0 (snd p) with
+                     | Some (LMutex a), Some (LMutex b) => [(a, b)] | _, _ => [] end) gen_lock_order.
+Definition is_virtual (m : nat) : bool := Nat.eqb m A_ac || Nat.eqb m A_st.
+Definition lock_order_tied : bool :=
+  forallb (fun p => has_pair p table_pairs) src_pairs
+  && forallb (fun p => is_virtual (fst p) || is_virtual (snd p) || has_pair p src_pairs) table_pairs.
+
+Definition ex_pair_out_in : string * string := ("gmtls.Conn.out>gmtls.halfConn.Mutex", "gmtls.Conn.in>gmtls.halfConn.Mutex").
+Definition ex_pair_in_out : string * string := ("gmtls.Conn.in>gmtls.halfConn.Mutex", "gmtls.Conn.out>gmtls.halfConn.Mutex").
+Definition ex_pair_cfg_cfg : string * string := ("gmtls.Config.mutex", "gmtls.Config.mutex").
+Definition ex_pair_cfg_hs : string * string := ("gmtls.Config.mutex", "gmtls.Conn.handshakeMutex").
+Definition pair_ranked (p : string * string) : bool :=
+  match src_rank (fst p), src_rank (snd p) with Some a, Some b => Nat.ltb a b | _, _ => false end.
